@@ -193,8 +193,38 @@ pub fn payload_bytes(key: u64, pid: Pid) -> Vec<u8> {
         e[at_payload..].copy_from_slice(uniq.as_bytes());
         let at = out.len() - e.len();
         out[at..].copy_from_slice(&e);
+        // ... and, in front of it, payloads of >= 200 bytes carry a complete, checksum-valid
+        // FRAME (an application that stores log bytes inside its records does exactly this).
+        // It can only ever be parsed if the reader starts reading a header in the middle of a
+        // payload, e.g. after following a damaged length field.
+        if out.len() >= 200 {
+            let f = embedded_frame();
+            let at2 = at - f.len();
+            out[at2..at].copy_from_slice(&f);
+        }
     }
     out
+}
+
+pub const EMBEDDED_QUEUE: &str = "forged-frame!";
+
+/// A complete `Full` frame (header with a correct checksum) carrying
+/// `AppendRecords { queue: "forged-frame!", position: 9, [(9, "EMBEDDED!")] }`.
+pub fn embedded_frame() -> Vec<u8> {
+    let mut e = Vec::new();
+    e.push(4u8);
+    e.extend_from_slice(&9u64.to_le_bytes());
+    e.extend_from_slice(&(EMBEDDED_QUEUE.len() as u16).to_le_bytes());
+    e.extend_from_slice(EMBEDDED_QUEUE.as_bytes());
+    e.extend_from_slice(&9u64.to_le_bytes());
+    e.extend_from_slice(&9u32.to_le_bytes());
+    e.extend_from_slice(b"EMBEDDED!");
+    let mut f = Vec::with_capacity(7 + e.len());
+    f.extend_from_slice(&crate::layout::crc32(1, &e).to_le_bytes());
+    f.extend_from_slice(&(e.len() as u16).to_le_bytes());
+    f.push(1u8);
+    f.extend_from_slice(&e);
+    f
 }
 
 pub const FORGED_QUEUE: &str = "forged!";
